@@ -54,13 +54,82 @@ func (p *plane) resync(subs []*subscriber) {
 	}
 }
 
+// mutateInPlace edits the plan the way a caller does before re-submitting the object it kept: the new
+// numbers go into the snapshot fields of s (submit copies them into the SAME object).  Returns the kind.
+func mutateInPlace(rt *rapid.T, s *subscriber, label string) string {
+	scale := func(v uint64, up bool) uint64 {
+		k := uint64(rapid.IntRange(2, 100).Draw(rt, label+".k"))
+		if up {
+			v *= k
+			if v > maxRate {
+				v = maxRate
+			}
+		} else {
+			v /= k
+			if v < minRate {
+				v = minRate
+			}
+		}
+		return v
+	}
+	for try := 0; ; try++ {
+		old := [4]uint64{s.Down, s.Up, uint64(s.Burst), uint64(s.Prio)}
+		kind := pick(rt, label+".kind", "upgrade", "downgrade", "burst-only", "priority-only", "to-rate-0", "from-rate-0", "all-new")
+		if try > 3 {
+			kind = "all-new"
+		}
+		switch kind {
+		case "upgrade", "downgrade":
+			up := kind == "upgrade"
+			if s.Down != 0 {
+				s.Down = scale(s.Down, up)
+			}
+			if s.Up != 0 {
+				s.Up = scale(s.Up, up)
+			}
+		case "burst-only":
+			s.Burst = genBurst(rt, s.Down, label+".burst")
+		case "priority-only":
+			s.Prio = uint8((int(s.Prio) + rapid.IntRange(1, 7).Draw(rt, label+".dprio")) % 8)
+		case "to-rate-0":
+			switch rapid.IntRange(0, 2).Draw(rt, label+".which") {
+			case 0:
+				s.Down = 0
+			case 1:
+				s.Up = 0
+			default:
+				s.Down, s.Up = 0, 0
+			}
+		case "from-rate-0":
+			if s.Down == 0 {
+				s.Down = genRate(rt, label+".down")
+			}
+			if s.Up == 0 {
+				s.Up = genRate(rt, label+".up")
+			}
+		default:
+			ns := genSubscriber(rt, label+".new")
+			s.Down, s.Up, s.Burst, s.Prio = ns.Down, ns.Up, ns.Burst, ns.Prio
+		}
+		if old != [4]uint64{s.Down, s.Up, uint64(s.Burst), uint64(s.Prio)} {
+			return kind
+		}
+	}
+}
+
 // TestPropPolicy - clause 4: the policy set through the control plane is the one enforced.
-// Histories of control-plane calls (Set / update / Remove / re-Set, through SetSubscriberQoS or
-// SetSubscriberPolicy) interleaved with bursts of frames at generated instants, for 1..3 subscribers.
-// Decides: after Set the datapath finds a bucket under the subscriber's address with exactly the
-// policy's rate/burst/priority; traffic obeys that contract (clauses 1-3 with the *configured*
-// numbers) from the instant of the call; after Remove nothing is limited and no bucket is left; other
-// subscribers' buckets are not disturbed by a call for one of them.
+// Histories of control-plane calls for 1..3 subscribers interleaved with bursts of frames and idle
+// periods.  The harness plays a real caller: it KEEPS the *SubscriberQoS objects it hands to
+// SetSubscriberQoS, edits the plan in the same object and submits it again (upgrade, downgrade, burst
+// only, priority only, to / from rate 0), re-submits an unchanged object, builds new objects, goes
+// through SetSubscriberPolicy with named policies, removes and re-adds, edits an object WITHOUT
+// submitting it, and restarts the data plane (Stop/Start: new, empty maps, manager object kept)
+// followed by re-application of every subscriber's policy.
+// Decides after EVERY control-plane call: (i) read-back of the kernel maps - for every subscriber the
+// bucket under the address bytes the TC program looks up carries exactly the rate / burst / priority of
+// the LAST successful Set call for that address (absent after Remove), also for the subscribers the
+// call was not about; (ii) a probe burst in both directions, and all other traffic of the history, obeys
+// that contract (clauses 1-3) from the instant of the call; nothing is limited after Remove.
 func TestPropPolicy(t *testing.T) {
 	c := startRunner(t)
 	p := newPlane(t, c)
@@ -72,11 +141,12 @@ func TestPropPolicy(t *testing.T) {
 			return
 		}
 		removed := map[*subscriber]bool{}
-		clock, tc := genT0(rt, 40*tenDays, "t0")
+		clock, tc := genT0(rt, 60*tenDays, "t0")
 		oth := other(rt, "peer")
 		cls := []string{tc, fmt.Sprintf("subs:%d", len(subs))}
 		var hist []string
 		nt := false
+		ipStr := func(s *subscriber) string { return fmt.Sprintf("%d.%d.%d.%d", s.IP[0], s.IP[1], s.IP[2], s.IP[3]) }
 		check := func(f *flow) bool {
 			ctx := func() string {
 				return fmt.Sprintf("%s of %s, contract rate=%d burst=%d, history %v, arrivals %v", dirName(f.dir), f.sub, f.rate, f.burst, hist, sampleEvents(f.ev, 40))
@@ -95,37 +165,159 @@ func TestPropPolicy(t *testing.T) {
 			}
 			return nil
 		}
-		// reinstall: (re-)Set s, then relocate and re-derive its two flows
-		reinstall := func(s *subscriber) bool {
-			p.writeBack(subs)
-			if err := p.install(s); err != nil {
+		dropFlow := func(old *flow) {
+			for i, f := range flows {
+				if f == old {
+					flows = append(flows[:i], flows[i+1:]...)
+					return
+				}
+			}
+		}
+		// send offers n frames of one size to/from s; verdicts go to the flow (or must all pass after Remove)
+		send := func(s *subscriber, dir int, size uint32, n int, gap uint64) bool {
+			fr, o := frameFor(dir, s.IP, oth, size)
+			for i := 0; i < n; i++ {
+				clock += gap
+				adm, res, ab := runFrame(rt, c, dirProg(dir), fr, o, clock)
+				if ab {
+					return true
+				}
+				if removed[s] {
+					if !adm {
+						if failSig(rt, sigEnforcedRemove+"/"+dirName(dir), "frame of %s dropped after RemoveSubscriberQoS; history %v", s, hist) {
+							return true
+						}
+					}
+					continue
+				}
+				f := flowOf(s, dir)
+				if adm && dir == dirEgress && f.rate != 0 && res.Priority != uint32(s.Prio) {
+					if failSig(rt, sigPriority, "admitted egress frame carries skb->priority %d, policy priority is %d; history %v", res.Priority, s.Prio, hist) {
+						return true
+					}
+				}
+				f.ev = append(f.ev, event{T: clock, Size: size, Adm: adm})
+			}
+			return false
+		}
+		// probe: right after a control-plane call, a burst at one instant in both directions that is worth
+		// more than the contracted burst where 40 frames can be (so a stale, larger bucket over-admits)
+		probe := func(s *subscriber) bool {
+			for dir := 0; dir < 2; dir++ {
+				size := uint32(1500)
+				if f := flowOf(s, dir); f != nil && !removed[s] && f.rate != 0 {
+					size = uint32(min64(maxPkt, uint64(f.burst)/uint64(rapid.IntRange(2, 30).Draw(rt, "probe.div"))+34))
+				}
+				n := rapid.IntRange(3, 40).Draw(rt, "probe.n")
+				hist = append(hist, fmt.Sprintf("probe(%s,%s,%dx%dB)", ipStr(s), dirName(dir), n, size))
+				if send(s, dir, size, n, 0) {
+					return true
+				}
+			}
+			return false
+		}
+		// readback: (i) above, on the kernel maps themselves
+		readback := func(called *subscriber, event string) bool {
+			for _, s := range subs {
+				ev := evBystander
+				if s == called || event == evAfterStart { // a restart concerns every subscriber
+					ev = event
+				}
+				for dir := 0; dir < 2; dir++ {
+					b, ok := p.kernelBucket(dir, s.IP)
+					if removed[s] {
+						if ok {
+							if failSig(rt, sigRemove+"/"+dirName(dir), "[%s] %s was removed but the %s map holds a bucket %v at its address; history %v", ev, s, dirName(dir), b, hist) {
+								return true
+							}
+						}
+						continue
+					}
+					if !ok {
+						if failSig(rt, missingSig(ev), "[%s] the last Set(%s) succeeded but %s holds no bucket under the address bytes % x; history %v", ev, s, dirMap(dir), datapathKey(s.IP), hist) {
+							return true
+						}
+						continue
+					}
+					if _, _, _, ab := contract(rt, s, dir, b, ev); ab {
+						return true
+					}
+				}
+			}
+			return false
+		}
+		// apply: one Set call for the snapshot values of s; closes the old flows, opens the new contract
+		apply := func(s *subscriber, how int, event string, wb bool) bool {
+			if wb {
+				p.writeBack(subs)
+			}
+			if err := p.submit(s, how); err != nil {
 				rt.Fatalf("harness: manager rejected a valid policy %s: %v", s, err)
 			}
 			p.resync(subs)
+			wasRemoved := removed[s]
+			removed[s] = false
 			for dir := 0; dir < 2; dir++ {
 				if old := flowOf(s, dir); old != nil {
-					if check(old) {
+					if !wasRemoved && check(old) {
 						return true
 					}
-					for i, f := range flows {
-						if f == old {
-							flows = append(flows[:i], flows[i+1:]...)
-							break
-						}
-					}
+					dropFlow(old)
 				}
-				b, found, ab := p.locate(rt, s, dir, true)
+				b, found, ab := p.locate(rt, s, dir, true, event)
 				if ab || !found {
 					return true
 				}
-				rate, burst, bkt, ab := contract(rt, s, dir, b)
+				rate, burst, bkt, ab := contract(rt, s, dir, b, event)
 				if ab {
 					return true
 				}
 				flows = append(flows, &flow{sub: s, dir: dir, rate: rate, burst: burst, bkt: bkt})
 			}
-			removed[s] = false
 			return false
+		}
+		// setOp draws how the caller delivers a (new or unchanged) plan for s and performs the call
+		setOp := func(s *subscriber, label string) bool {
+			how := pick(rt, label+".how", "in-place", "in-place", "identical", "fresh-new", "fresh-identical", "by-name-new", "by-name-identical")
+			event, via := evFreshUpdate, submitFresh
+			switch how {
+			case "in-place":
+				kind := mutateInPlace(rt, s, label+".mut")
+				event, via = evInPlace, submitSameObject
+				how += ":" + kind
+				cls = append(cls, "op:in-place-update", "in-place:"+kind)
+			case "identical":
+				event, via = evIdentical, submitSameObject
+				if s.obj == nil || s.lastByName {
+					via = submitByName // the plan was delivered by name: the caller re-applies the same named policy
+				}
+				cls = append(cls, "op:identical-resubmit")
+			case "fresh-new", "by-name-new":
+				ns := genSubscriber(rt, label+".new")
+				s.Down, s.Up, s.Burst, s.Prio = ns.Down, ns.Up, ns.Burst, ns.Prio
+				if how == "by-name-new" {
+					via = submitByName
+				}
+				cls = append(cls, "op:update")
+			case "fresh-identical":
+				event = evIdentical
+				cls = append(cls, "op:identical-resubmit")
+			case "by-name-identical":
+				event, via = evIdentical, submitByName
+				cls = append(cls, "op:identical-resubmit")
+			}
+			if removed[s] {
+				event = evAfterRemove
+				cls = append(cls, "op:set-after-remove")
+			}
+			hist = append(hist, fmt.Sprintf("set[%s](%s)", how, s))
+			if apply(s, via, event, true) {
+				return true
+			}
+			if readback(s, event) {
+				return true
+			}
+			return probe(s)
 		}
 		nops := rapid.IntRange(2, 14).Draw(rt, "nops")
 		var lastSub *subscriber
@@ -139,7 +331,7 @@ func TestPropPolicy(t *testing.T) {
 		}
 		for op := 0; op < nops; op++ {
 			s := subs[rapid.IntRange(0, len(subs)-1).Draw(rt, "sub")]
-			switch k := rapid.IntRange(0, 9).Draw(rt, "op"); {
+			switch k := rapid.IntRange(0, 13).Draw(rt, "op"); {
 			case k <= 4: // a burst of frames at one instant (or with small gaps) to/from s
 				dir := rapid.IntRange(0, 1).Draw(rt, "dir")
 				// half of the bursts continue the flow of the previous burst (drain, wait, send again)
@@ -157,30 +349,10 @@ func TestPropPolicy(t *testing.T) {
 				if chance(rt, "spaced", 1, 3) {
 					gap = logUniform(rt, 0, 50_000_000, "burstGap")
 				}
-				hist = append(hist, fmt.Sprintf("send(%d.%d.%d.%d,%s,%dx%dB,+%dns)", s.IP[0], s.IP[1], s.IP[2], s.IP[3], dirName(dir), n, size, gap))
+				hist = append(hist, fmt.Sprintf("send(%s,%s,%dx%dB,+%dns)", ipStr(s), dirName(dir), n, size, gap))
 				lastSize = size
-				fr, o := frameFor(dir, s.IP, oth, size)
-				for i := 0; i < n; i++ {
-					clock += gap
-					adm, res, ab := runFrame(rt, c, dirProg(dir), fr, o, clock)
-					if ab {
-						return
-					}
-					if removed[s] {
-						if !adm {
-							if failSig(rt, sigEnforcedRemove+"/"+dirName(dir), "frame of %s dropped after RemoveSubscriberQoS; history %v", s, hist) {
-								return
-							}
-						}
-						continue
-					}
-					f := flowOf(s, dir)
-					if adm && dir == dirEgress && f.rate != 0 && res.Priority != uint32(s.Prio) {
-						if failSig(rt, sigPriority, "admitted egress frame carries skb->priority %d, policy priority is %d", res.Priority, s.Prio) {
-							return
-						}
-					}
-					f.ev = append(f.ev, event{T: clock, Size: size, Adm: adm})
+				if send(s, dir, size, n, gap) {
+					return
 				}
 			case k <= 6: // time passes
 				g := logUniform(rt, 0, tenDays, "idle")
@@ -192,15 +364,11 @@ func TestPropPolicy(t *testing.T) {
 				}
 				clock += g
 				hist = append(hist, fmt.Sprintf("idle(%dns)", g))
-			case k == 7: // policy update (CoA / re-authentication): new numbers for the same address
-				ns := genSubscriber(rt, fmt.Sprintf("upd%d", op))
-				s.Down, s.Up, s.Burst, s.Prio, s.ViaName = ns.Down, ns.Up, ns.Burst, ns.Prio, ns.ViaName
-				hist = append(hist, "set("+s.String()+")")
-				cls = append(cls, "op:update")
-				if reinstall(s) {
+			case k <= 9 || k == 12: // a Set call: update in place / identical re-submission / new object / named policy
+				if setOp(s, fmt.Sprintf("set%d", op)) {
 					return
 				}
-			case k == 8: // remove
+			case k == 10: // remove
 				if removed[s] {
 					continue
 				}
@@ -209,7 +377,7 @@ func TestPropPolicy(t *testing.T) {
 					rt.Fatalf("harness: RemoveSubscriberQoS(%v): %v", ipOf(s.IP), err)
 				}
 				p.resync(subs)
-				hist = append(hist, fmt.Sprintf("remove(%d.%d.%d.%d)", s.IP[0], s.IP[1], s.IP[2], s.IP[3]))
+				hist = append(hist, fmt.Sprintf("remove(%s)", ipStr(s)))
 				cls = append(cls, "op:remove")
 				for dir := 0; dir < 2; dir++ {
 					if f := flowOf(s, dir); f != nil {
@@ -230,11 +398,61 @@ func TestPropPolicy(t *testing.T) {
 					}
 				}
 				removed[s] = true
-			default: // Set again with the same numbers (new session on the same address): bucket refilled, contract restarts
-				hist = append(hist, "set("+s.String()+")")
-				cls = append(cls, "op:reset")
-				if reinstall(s) {
+				if readback(s, "remove") || probe(s) {
 					return
+				}
+			case k == 11: // the caller edits the object it kept but does not submit it: nothing may change
+				if s.obj == nil {
+					continue
+				}
+				s.obj.DownloadBPS = genRate(rt, "edit.down")
+				s.obj.UploadBPS = genRate(rt, "edit.up")
+				s.obj.BurstBytes = genBurst(rt, s.obj.DownloadBPS, "edit.burst")
+				s.obj.Priority = uint8(rapid.IntRange(0, 7).Draw(rt, "edit.prio"))
+				hist = append(hist, fmt.Sprintf("edit-without-set(%s)", ipStr(s)))
+				cls = append(cls, "op:edit-without-set")
+				if readback(nil, evBystander) {
+					return
+				}
+				if !removed[s] && probe(s) {
+					return
+				}
+			default: // data plane restart (Stop/Start): new empty maps; the caller re-applies every subscriber's policy
+				for _, f := range flows {
+					if !removed[f.sub] && check(f) {
+						return
+					}
+				}
+				flows = nil
+				p.restartDataPlane()
+				for _, x := range subs {
+					x.steered = [2]bool{}
+				}
+				hist = append(hist, "restart")
+				cls = append(cls, "op:restart")
+				for i, x := range subs {
+					if removed[x] {
+						continue
+					}
+					via := submitSameObject
+					switch {
+					case x.obj == nil || x.lastByName:
+						via = submitByName
+					case chance(rt, fmt.Sprintf("restart.fresh%d", i), 1, 3):
+						via = submitFresh
+					}
+					hist = append(hist, fmt.Sprintf("reapply(%s)", x))
+					if apply(x, via, evAfterStart, false) {
+						return
+					}
+				}
+				if readback(nil, evAfterStart) {
+					return
+				}
+				for _, x := range subs {
+					if !removed[x] && probe(x) {
+						return
+					}
 				}
 			}
 		}
